@@ -30,7 +30,7 @@ ASSUMPTIONS = [
     "data that is itself an input (file times, ids from stat)",
     "bounded: blocks of <= 8 bytes (typed wrappers), <= 2 blocks inside the pool and <= 2 in io_queue per dequeue_block call with the "
     "block kinds (data / manual / fragment block) as case parameters, io_queue <= 3 for store_io_block, <= 2 drain calls in "
-    "get_new_block, SOURCE_DATE_EPOCH strings of <= 11 bytes; sequence numbers, sizes, flags outside the kind bits, data symbolic",
+    "get_new_block, SOURCE_DATE_EPOCH strings of <= 11 bytes in the unwound harness (the loop-contract harness source_date_epoch_unb covers every string <= 63 quick / <= 255 thorough); sequence numbers, sizes, flags outside the kind bits, data symbolic",
     "io sequence counters do not wrap (fewer than 2^32 - 256 blocks per image)",
     "dequeue_block is used through its contract in finish/sync/get_new_block (fails, or takes back at least one block and is the "
     "only function that numbers data blocks) - established by io_order.c for the bounded shapes",
@@ -157,6 +157,11 @@ HARNESSES = [
          unwind=20, timeout=600, nochecks=["--conversion-check"], solver="cadical",
          cases=[dict(id="len11", defines={"LEN": 11}, tier="quick"),
                 dict(id="len13", defines={"LEN": 13}, unwind=22, label="bounded(len<=13)", tier="thorough")]),
+    dict(name="source_date_epoch_unb", file="sde_unb.c", label="proved",
+         loops=["get_source_date_epoch"], timeout=900,
+         nochecks=["--conversion-check"], solver="cadical",
+         cases=[dict(id="n63", defines={"LEN": 63}, tier="quick"),
+                dict(id="n255", defines={"LEN": 255}, tier="thorough")]),
     dict(name="serial_equiv_submit", file="serial_equiv.c", label="bounded(list nodes <= 3)",
          timeout=600, malloc_fail=True, defines={"OP_SUBMIT": None},
          cases=[dict(id="k3", defines={"KQ": 3, "KR": 2}, unwind=7, tier="quick")]),
